@@ -2,6 +2,8 @@
 # usage: tools/seedcheck.sh <seed-id> <property> [worktree]   -- runs the registered quick check against the seeded change
 # (patch applied in a scratch worktree, never in /repo), records check_output.txt / run.txt, reverts the worktree.
 ID=$1; PROP=$2; WT=${3:-/tmp/wt-seed}; OUT=/verif/seeded/$ID
+# the scratch worktree is created on demand (remove it afterwards: git -C /repo worktree remove --force $WT)
+[ -d "$WT" ] || git -C /repo worktree add -q --detach "$WT" HEAD || exit 3
 cd $WT && git checkout -q -- include src && git apply $OUT/patch.diff || { echo "patch does not apply"; exit 3; }
 cd /verif && TULZ_REPO=$WT ./check $PROP > $OUT/check_output.txt 2>&1; RC=$?
 grep "VIOLATION\|FAILED-OBLIGATION\|OK property\|UNDECIDED\|KNOWN\|TOOL-FAILURE" $OUT/check_output.txt | cut -c1-300 | head -12
